@@ -397,6 +397,9 @@ macro_rules! for_each_shipped_te {
 
 pub fn shipped_curves() -> Vec<Box<dyn CAd>> {
     let mut v: Vec<Box<dyn CAd>> = vec![];
+    if crate::common::slice() {
+        return v;
+    }
     macro_rules! s {
         ($name:literal, $ty:ty, $fmt:expr) => {
             v.push(mk_sw::<$ty>($name, $fmt, false));
@@ -414,6 +417,11 @@ pub fn shipped_curves() -> Vec<Box<dyn CAd>> {
 
 pub fn toy_curves() -> Vec<Box<dyn CAd>> {
     let mut v: Vec<Box<dyn CAd>> = vec![];
+    if crate::common::slice() {
+        v.push(mk_sw::<cfgs::toy_curves::sw_a0_h4>("toy/sw_a0_h4", Format::Sw, true));
+        v.push(mk_te::<cfgs::toy_curves::te_inc>("toy/te_inc", true));
+        return v;
+    }
     macro_rules! s {
         ($name:literal, $ty:ty) => {
             v.push(mk_sw::<$ty>(concat!("toy/", $name), Format::Sw, true));
